@@ -86,6 +86,7 @@ func Run(c *core.Ctx) error {
 			return fmt.Errorf("collection type %s is not in the extracted table: no field of type sync.Mutex / *sync.Cond found in it", tn)
 		}
 	}
+	curTab = tab
 	directedOps = nil
 	for _, n := range strings.Split(c.Args["ops"], "+") {
 		if n != "" {
@@ -98,6 +99,7 @@ func Run(c *core.Ctx) error {
 		return nil
 	case "race":
 		c.Rule = ""
+		raceMode = true
 		if !RaceBuild {
 			return fmt.Errorf("mode=race needs the race-detector build of the harness")
 		}
@@ -120,7 +122,10 @@ func Run(c *core.Ctx) error {
 	if err := runWatchdog(c, tab); err != nil {
 		return err
 	}
-	return runLin(c)
+	if err := runLin(c); err != nil {
+		return err
+	}
+	return runGate(c)
 }
 
 // takes: does method m of type tn (transitively, through same-receiver calls) take the instance lock
